@@ -10,12 +10,29 @@ os.makedirs(dst, exist_ok=True)
 for f in ('patch.diff', 'demo.py', 'notes.md'):
     if os.path.exists(os.path.join(wt, 'SEED', f)):
         shutil.copy(os.path.join(wt, 'SEED', f), dst)
-def run(cmd, cwd, timeout=1500):
-    p = subprocess.run(cmd, cwd=cwd, capture_output=True, text=True, timeout=timeout)
-    return p.returncode, (p.stdout + p.stderr)
+def run(cmd, cwd, timeout=900):
+    """output goes to a file (not a pipe: forked test workers keep pipes open and would block communicate()); the whole process
+    group is killed on timeout"""
+    import signal, tempfile, time
+    for attempt in (1, 2):
+        with tempfile.TemporaryFile('w+') as f:
+            p = subprocess.Popen(cmd, cwd=cwd, stdout=f, stderr=subprocess.STDOUT, start_new_session=True)
+            try:
+                rc = p.wait(timeout=timeout)
+            except subprocess.TimeoutExpired:
+                rc = None
+            try:
+                os.killpg(p.pid, signal.SIGKILL)
+            except ProcessLookupError:
+                pass
+            f.seek(0)
+            out = f.read()
+        if rc is not None:
+            return rc, out
+    return -9, 'timeout\n' + out[-2000:]
 meta = {'property': prop, 'name': name}
 # 1. tests in the worktree (change applied there)
-rc, out = run(['/venv/bin/python', '-m', 'pytest', '-q', '-p', 'no:cacheprovider', '--timeout=300', '-q', '--deselect',
+rc, out = run(['/venv/bin/python', '-m', 'pytest', '-q', '-p', 'no:cacheprovider', '--timeout=120', '-q', '--deselect',
                'tests/net/test_tcp.py::test_tcp_lookup_failure'] + tests, wt)
 meta['tests_with_change'] = {'cmd': 'pytest ' + ' '.join(tests), 'rc': rc, 'tail': out.strip().splitlines()[-1] if out.strip() else ''}
 # 2. apply to /repo
@@ -23,10 +40,12 @@ assert run(['git', 'status', '--porcelain', '--', 'circuits'], '/repo')[1].strip
 rc, out = run(['git', 'apply', os.path.join(dst, 'patch.diff')], '/repo')
 assert rc == 0, out
 try:
-    rc, out = run(['bin/check', prop, '--no-evidence'], '/verif')
-    lines = [l for l in out.splitlines() if l.startswith(('VIOLATION', 'failed obligation', 'UNDECIDED', 'CHECKER', prop + ':'))]
-    meta['check_with_change'] = {'cmd': 'bin/check %s' % prop, 'rc': rc, 'violations': [l[:260] for l in lines if l.startswith(('VIOLATION', 'failed'))][:8],
-                                 'summary': lines[-1] if lines else ''}
+    meta['check_with_change'] = {}
+    for pr in prop.split(','):
+        rc, out = run(['bin/check', pr, '--no-evidence'], '/verif', 3000)
+        lines = [l for l in out.splitlines() if l.startswith(('VIOLATION', 'failed obligation', 'UNDECIDED', 'CHECKER', pr + ':'))]
+        meta['check_with_change'][pr] = {'cmd': 'bin/check %s' % pr, 'rc': rc, 'violations': [l[:260] for l in lines if l.startswith(('VIOLATION', 'failed'))][:8],
+                                         'summary': lines[-1] if lines else ''}
 finally:
     run(['git', 'checkout', '--', '.'], '/repo')
 # demo in the scratch worktree it was written for: with the change, then without (git stash), then restored
@@ -38,7 +57,9 @@ try:
     meta['demo_without_change'] = {'cmd': 'git stash; /venv/bin/python SEED/demo.py; git stash pop', 'rc': rc, 'tail': out.strip().splitlines()[-2:]}
 finally:
     run(['git', 'stash', 'pop'], wt)
-meta['caught'] = meta['check_with_change']['rc'] == 1
+meta['caught'] = any(c['rc'] == 1 for c in meta['check_with_change'].values())
+meta['property'] = prop.split(',')[0]
+meta['checks_run'] = prop.split(',')
 meta['confirmed'] = meta['tests_with_change']['rc'] == 0 and meta['demo_with_change']['rc'] == 1 and meta['demo_without_change']['rc'] == 0
 json.dump(meta, open(os.path.join(dst, 'meta.json'), 'w'), indent=1)
 print(json.dumps(meta, indent=1)[:3000])
